@@ -245,6 +245,8 @@ def check_assembly(case, ctx):
         plist.insert(case['third_pos'], extra)
     pos1, pos2 = _pos(case, pd1, pd2)
     conn = dict(p1=p1, p2=p2, func=kind)
+    if case.get('has_defect_key'):
+        conn['has_defect'] = False      # the package's own assembly builders carry this flag on their connection dicts (False = intact bond)
     if kind in ('SSycte', 'BFycte'):
         conn.update(ycte1=pos1, ycte2=pos2)
     elif kind in ('SSxcte', 'BFxcte'):
@@ -334,7 +336,7 @@ def _pair(draw, tier='quick'):
             'kt': draw(gen.logfl(1e3, 1e12)), 'kr': draw(gen.logfl(1e0, 1e8)), 'p1_first': draw(st.booleans()),
             'gap': [draw(st.sampled_from([0, 0, 3])), draw(st.sampled_from([0, 0, 5])), draw(st.sampled_from([0, 2]))],
             'dsb': draw(gen.fl(1e-4, 1e-2)), 'dseed': draw(st.integers(0, 2 ** 20)),
-            'third': draw(st.booleans()), 'third_pos': draw(st.integers(0, 2)), 'escale': draw(gen.fl(0.1, 10.))}
+            'third': draw(st.booleans()), 'third_pos': draw(st.integers(0, 2)), 'escale': draw(gen.fl(0.1, 10.)), 'has_defect_key': draw(st.booleans())}
 
 
 SUBS = [
